@@ -595,6 +595,9 @@ func polylineIntersectsPolygon(polyline *s2.Polyline, polygon *s2.Polygon) bool 
 }
 
 func polylineIntersectsFeature(polyline *s2.Polyline, feature Feature) bool {
+	if polyline == nil || len(*polyline) == 0 {
+		return false
+	}
 	if f, ok := feature.(Geometry); ok {
 		switch f.GeometryType() {
 		case GeometryTypePoint:
